@@ -141,6 +141,122 @@ def suite_ip(ctx, gen, maxlen, variants=("default",)):
         drift_to_c15(ctx, res)
 
 
+# ---------------------------------------------------------------- direction B: recorded executions
+
+CLAUSE_PROPS = {   # failed clause of Trace_Func -> properties it speaks about, per event kind
+    ("local", "decision"): ["C02", "C03"], ("local", "truth"): ["C15"], ("local", "range"): ["C15"],
+    ("host", "decision"): ["C04"], ("host", "truth"): ["C15"], ("host", "range"): ["C15"],
+    ("literal", "decision"): ["C05"], ("literal", "truth"): ["C15"],
+    ("email", "decision"): ["C01"], ("email", "class"): ["C07", "C09"], ("email", "flag"): ["C16"], ("email", "record"): ["C16"],
+    ("email", "truth"): ["C15"], ("email", "tldclass"): ["C07"], ("email", "idn"): ["C10", "C19"],
+}
+
+
+def report_bad_events(ctx, bad, optbits=0):
+    import re
+    for (ln, ev, note) in bad:
+        clauses = re.findall(r'"([a-z ]+)"', note) or ["?"]
+        case = {"event": ev.get("e"), "mode": ev.get("mode"), "tld_check": ev.get("tld"), "opts": ev.get("o"), "in": ev["in"][:400],
+                "len": len(ev["in"]), "text": vlib.bytes_to_text(ev["in"][:200]), "rc": ev.get("rc"), "fl": ev.get("fl"), "idn": ev.get("idn"),
+                "conv_code": ev.get("cc"), "conv_out": ev.get("co"), "failed_clauses": clauses}
+        for c in clauses:
+            props_ = CLAUSE_PROPS.get((ev.get("e"), c), ["C15"])
+            if ev.get("e") == "local" and c == "decision":
+                props_ = ["C03"] if ev.get("mode") == 6531 else ["C02"]
+            if optbits:
+                props_ = ["C17"]
+            for p in props_:
+                add_violation(ctx, p, "recorded execution rejected by the trace spec (clause %s)" % c, case)
+
+
+def data_lines(ctx):
+    """lines of the repository's own data files (addresses and local parts)"""
+    addr, loc = [], []
+    dd = os.path.join(vlib.REPO, "data")
+    for fn in sorted(os.listdir(dd)):
+        if not fn.endswith(".txt"):
+            continue
+        for raw in open(os.path.join(dd, fn), "rb").read().split(b"\n"):
+            raw = raw.rstrip(b"\r")
+            if not raw or raw.startswith(b"#") or b"\0" in raw:
+                continue
+            (loc if fn.startswith("localpart") else addr).append(list(raw))
+            if b"\\" in raw:      # the test programs unescape \r \n \t: feed the unescaped form too
+                u = raw.replace(b"\\r", b"\r").replace(b"\\n", b"\n").replace(b"\\t", b"\t")
+                if u != raw and b"\0" not in u:
+                    (loc if fn.startswith("localpart") else addr).append(list(u))
+    return addr, loc
+
+
+STRUCT = [64, 46, 34, 92, 91, 93, 58, 45, 32, 9, 13, 10, 40, 35, 95, 195, 169, 255, 49, 97]
+TOKENS = [b"a", b"ab", b"x.com", b"@", b".", b"\"", b"\\", b" ", b"\r\n ", b"\t", b"[", b"]", b"1.2.3.4", b"IPv6:", b"::", b":", b"1", b"ff",
+          b"-", b"_", b"example", b"test", b"localhost", b"com", b"org", b"xn--p1ai", b"\xc3\xa9", b"\xd0\xbf", b"\xff", b"\x01", b"\x7f", b"(", b"#",
+          b"aaaaaaaaaaaaaaaaaaaaaaaaaaaaaaaaaaaaaaaaaaaaaaaaaaaaaaaaaaaaaaa", b"ru", b"arpa", b"\"a b\"", b"\"a\\\"b\"", b"a.b", b"0",
+          b"\"a\"", b"..", b"].", b"a\"", b"@x.com", b"@[1.2.3.4]", b"@[IPv6:::1]", b"a@", b"\"\\\xc3\xa9\"", b".\xc3\xa9.", b"-."]
+
+
+def gen_inputs(ctx, n_mut, n_rand, n_long):
+    rng = ctx.rng
+    addr, loc = data_lines(ctx)
+    out_a, out_l = list(addr), list(loc)
+    base = addr + [l + [64] + list(b"x.com") for l in loc]
+    for _ in range(n_mut):
+        b = list(rng.choice(base))
+        for _k in range(rng.randint(1, 3)):
+            op = rng.randint(0, 4)
+            pos = rng.randint(0, len(b)) if b else 0
+            if op == 0 and b:
+                b[min(pos, len(b) - 1)] = rng.choice(STRUCT)
+            elif op == 1:
+                b.insert(pos, rng.choice(STRUCT))
+            elif op == 2 and b:
+                b.insert(pos, b[min(pos, len(b) - 1)])
+            elif op == 3 and len(b) > 1:
+                del b[min(pos, len(b) - 1)]
+            else:
+                b = b[:pos]
+        out_a.append(b)
+    for _ in range(n_rand):
+        if rng.random() < 0.5:
+            b = []
+            for _k in range(rng.randint(1, 9)):
+                b += list(rng.choice(TOKENS))
+        else:
+            b = [rng.randint(1, 255) for _k in range(rng.randint(0, 24))]
+            if rng.random() < 0.7:
+                b.insert(rng.randint(0, len(b)), 64)
+        (out_a if rng.random() < 0.8 else out_l).append(b)
+    for _ in range(n_long):
+        b = []
+        target = rng.choice([70, 130, 260, 600, 2000])
+        while len(b) < target:
+            b += list(rng.choice(TOKENS))
+        (out_a if rng.random() < 0.6 else out_l).append(b)
+    out_a = [x for x in out_a if 0 not in x]
+    out_l = [x for x in out_l if 0 not in x]
+    return out_a, out_l
+
+
+def suite_recorded(ctx, n_mut, n_rand, n_long, optbits=0, variant="default"):
+    """direction B: the code's behaviour on the repository's data files, mutations, random and long strings, validated by TLC"""
+    addrs, locs = gen_inputs(ctx, n_mut, n_rand, n_long)
+    vec = ctx.path("record-%d.vec" % optbits)
+    with open(vec, "w") as f:
+        for a in addrs:
+            f.write('"[18,%d,%d%s]"\n' % (optbits, len(a), "".join(",%d" % x for x in a)))
+        for a in locs:
+            f.write('"[19,%d,%d%s]"\n' % (optbits, len(a), "".join(",%d" % x for x in a)))
+    b = build(ctx, variant, optbits)
+    res = replay(ctx, b, vec, "record-o%d" % optbits)
+    crash_violation(ctx, res, ["C06", ctx.prop])
+    tr = os.path.join(res["outdir"], "trace.ndjson")
+    if os.path.exists(tr):
+        n, bad = validate_trace(ctx, "Trace_Func", tr)
+        report_bad_events(ctx, bad, optbits)
+        add_sample(ctx, open(tr).readline().strip()[:300])
+    ctx.cov["recorded_inputs"] = ctx.cov.get("recorded_inputs", 0) + len(addrs) + len(locs)
+
+
 # ---------------------------------------------------------------- whole addresses
 
 def classify_email(ctx, v, optbits=0):
@@ -163,6 +279,8 @@ def classify_email(ctx, v, optbits=0):
             add_violation(ctx, "C01", "address decision (tld_check on)", case)
     elif w in ("flag", "record"):
         add_violation(ctx, "C16", "result record: " + w, case)
+        if w == "record" and tld == 0 and isinstance(v["exp"], int) and v["exp"] > 0:
+            add_violation(ctx, "C08", "TLD class reported although tld_check is off", case)
     elif w in ("composition", "composition-idn", "eav_setup refused a defined mode"):
         add_violation(ctx, "C01", "high-level call differs from the composition of the public validators: " + w, case)
     elif w in ("eav-level", "eav-message"):
@@ -170,6 +288,8 @@ def classify_email(ctx, v, optbits=0):
         add_violation(ctx, "C15", "eav_is_email return/errcode/message inconsistent: " + w, case)
     elif w.startswith("cross"):
         add_violation(ctx, "C12", "modes disagree: " + w, case)
+        if w == "cross-mode-6531":
+            add_violation(ctx, "C10", "all-ASCII domain: mode 6531 and the ASCII modes disagree (and not by an IDN error)", case)
 
 
 def email_drift(ctx, res):
@@ -217,7 +337,9 @@ def suite_tld(ctx, part, rowmod=8, rowrem=None, variants=("default",)):
 
 def c01(ctx):
     suite_email(ctx, 2, 0)
+    suite_ip(ctx, 2, 0)
     suite_email(ctx, 1, 5 if ctx.quick() else 7)
+    suite_recorded(ctx, *((800, 800, 80) if ctx.quick() else (20000, 20000, 1000)))
     return finish(ctx, "model_checking",
                   "TLC enumerates addresses: all strings over {a . @ \" [ ] 1 :} up to MaxLen and families (local-part pool x domain pool, "
                   "local parts of 58..70 octets, several '@'); per (mode, tld_check) layer P pins decision/code/flag; each vector is "
@@ -265,6 +387,7 @@ def c16(ctx):
     suite_ip(ctx, 2, 0)
     suite_tld(ctx, 2)
     suite_tld(ctx, 1, 16 if q else 2)
+    suite_recorded(ctx, *((800, 800, 80) if ctx.quick() else (20000, 20000, 1000)))
     return finish(ctx, "model_checking",
                   "result record of every enumerated address in four modes x tld_check: at most one flag, exactly one on acceptance and "
                   "equal to the form of the domain, none when a half is syntactically invalid, rc = 0 / class / negative as pinned by "
@@ -283,6 +406,7 @@ def c15(ctx):
     suite_tld(ctx, 2)
     suite_tld(ctx, 1, 16 if q else 4)
     suite_object(ctx, 5 if q else 6, faults=True, small=True, graph=not q)
+    suite_recorded(ctx, *((800, 800, 80) if ctx.quick() else (20000, 20000, 1000)))
     return finish(ctx, "model_checking",
                   "every code the model returns satisfies its truth predicate (TLC invariant on every enumerated state); every observed code "
                   "either equals the model's or is validated by TLC against the truth predicates (drift trace); eav_is_email return value, "
@@ -527,6 +651,8 @@ def c06(ctx):
     vecs = []
     vecs.append(("local", tlc_ok(ctx, "MC_Local", cfg({"MaxLen": 4 if q else 5, "AlphaId": 1, "OptBits": 0}))))
     vecs.append(("local3", tlc_ok(ctx, "MC_Local", cfg({"MaxLen": 4 if q else 5, "AlphaId": 3, "OptBits": 0}))))
+    vecs.append(("sweep1", tlc_ok(ctx, "MC_LocalSweep", cfg({"Part": 1, "Full": "FALSE", "OptBits": 0}))))
+    vecs.append(("sweep2", tlc_ok(ctx, "MC_LocalSweep", cfg({"Part": 2, "Full": "FALSE" if q else "TRUE", "OptBits": 0}))))
     vecs.append(("host", tlc_ok(ctx, "MC_Host", cfg({"MaxLen": 0, "Gen": 2, "OptBits": 0}))))
     vecs.append(("host1", tlc_ok(ctx, "MC_Host", cfg({"MaxLen": 5 if q else 6, "Gen": 1, "OptBits": 0}))))
     vecs.append(("ip", tlc_ok(ctx, "MC_Ip", cfg({"MaxLen": 0, "Gen": 2}))))
@@ -801,6 +927,8 @@ def c17(ctx):
                 suite_host(ctx, a, l, optbits=ob)
             else:
                 suite_email(ctx, a, l, optbits=ob)
+    for ob in (1, 2, 4, 7):
+        suite_recorded(ctx, *((300, 400, 40) if q else (5000, 8000, 300)), optbits=ob)
     return finish(ctx, "model_checking",
                   "the spec's option record o = [rfc20, f5322, us] is instantiated like the build (8 combinations through the repository "
                   "Makefile); TLC enumerates local parts / host names / addresses under o and pins what the options document (mode 6531 "
@@ -854,7 +982,9 @@ def c19(ctx):
 
 def c04(ctx):
     suite_host(ctx, 2, 0)
+    suite_host(ctx, 2, 0, optbits=4)        # "underscore too, only when built with LABELS_ALLOW_UNDERSCORE"
     suite_host(ctx, 1, 6 if ctx.quick() else 8)
+    suite_recorded(ctx, *((800, 600, 80) if ctx.quick() else (20000, 15000, 1000)))
     return finish(ctx, "model_checking",
                   "TLC enumerates host names: all strings over {letter,digit,'-','.','_',other} up to MaxLen, families for label "
                   "length 0..70 in each position, total length 240..260 with/without root dot, every byte value at each label position; "
@@ -871,12 +1001,26 @@ def c05(ctx):
                   "through is_{822,5321,5322,6531}_email with tld_check off and on")
 
 
+def suite_sweep(ctx, part, full=False, optbits=0, variants=("default",)):
+    r = tlc_ok(ctx, "MC_LocalSweep", cfg({"Part": part, "Full": "TRUE" if full else "FALSE", "OptBits": optbits}))
+    sample_vectors(ctx, r["out"])
+    for var in variants:
+        b = build(ctx, var, optbits)
+        res = replay(ctx, b, r["out"], "sweep-p%d-o%d" % (part, optbits))
+        crash_violation(ctx, res, ["C06", ctx.prop])
+        for v in res["viol"]:
+            classify_local(ctx, v, optbits)
+        drift_to_c15(ctx, res)
+
+
 def c02(ctx):
     if ctx.quick():
         suite_local(ctx, 2, 5)
     else:
         suite_local(ctx, 1, 5)
         suite_local(ctx, 2, 6)
+    suite_sweep(ctx, 1)
+    suite_recorded(ctx, *((600, 900, 120) if ctx.quick() else (15000, 25000, 1500)))
     return finish(ctx, "model_checking",
                   "TLC enumerates every local part of <= MaxLen symbols over the alphabet (one state each), checks M |= P "
                   "and prints the vector; each vector is executed on the real scanners in 2 guard-page placements; "
@@ -891,6 +1035,9 @@ def c03(ctx):
         suite_local(ctx, 4, 7)
         suite_local(ctx, 3, 5)
         suite_local(ctx, 1, 5)
+    suite_sweep(ctx, 1)
+    suite_sweep(ctx, 2, full=not ctx.quick())
+    suite_recorded(ctx, *((600, 900, 120) if ctx.quick() else (15000, 25000, 1500)))
     return finish(ctx, "model_checking",
                   "TLC enumerates local parts over ASCII structure characters and 2/3/4-byte and ill-formed UTF-8 chunks; "
                   "decision compared with well-formed-UTF-8 + RFC 5321 grammar over code points")
